@@ -557,4 +557,16 @@ def main():
 
 
 if __name__ == "__main__":
-    sys.exit(main())
+    try:
+        rc = main()
+    except SystemExit:
+        raise
+    except KeyboardInterrupt:
+        rc = 2
+    except BaseException:
+        # trouble of the runner itself is never a verdict about the code under test
+        import traceback
+        traceback.print_exc()
+        print("HARNESS-TROUBLE: runner failed with an exception")
+        rc = 2
+    sys.exit(rc)
